@@ -50,7 +50,7 @@ func genC04Host(t *tape.Tape, tok string, uniq int) string {
 	case 4:
 		return withPort(tok + ".other.example")
 	default: // localhost family
-		h := []string{"localhost", "LocalHost", "LOCALHOST", "127.0.0.1", "127.8.9.10", "[::1]", "0.0.0.0", "[::]", "myalias.local", "MyAlias.Local", "alias6.local", "ip6-localhost", "[0:0:0:0:0:0:0:1]", "build-agent-07", "Build-Agent-07", "BUILD-AGENT-07"}[t.Intn(16)]
+		h := []string{"localhost", "LocalHost", "LOCALHOST", "127.0.0.1", "127.8.9.10", "[::1]", "0.0.0.0", "[::]", "myalias.local", "MyAlias.Local", "alias6.local", "ip6-localhost", "[0:0:0:0:0:0:0:1]", "build-agent-07", "Build-Agent-07", "BUILD-AGENT-07", "[::ffff:127.0.0.1]", "[::ffff:7f00:1]", "[0:0:0:0:0:ffff:127.8.9.10]"}[t.Intn(19)]
 		if strings.HasPrefix(h, "[") {
 			if t.Chance(1, 2) {
 				return h
